@@ -29,3 +29,4 @@ OBS = [
  Ob(['C07', 'C08', 'C09'], 'fix_endian', 'num', 'harness/text.c', 'h_fix_endian', unwind=10, cap=60, desc='fixEndianness reverses 2/4/8 bytes and is an involution', bound='all byte values'),
  Ob(['C15'], 'nesting_counter', 'num', 'harness/text.c', 'h_nesting_counter', unwind=2, cap=60, desc='NestingLimit::reached/decrement', bound='all 256 values'),
 ]
+OBS += [Ob(['C09'], 'd2f', 'num', 'harness/text.c', 'h_d2f', unwind=10, cap=200, hunwind=12, desc='doubleToFloat (USE_DOUBLE=0 reader): sign, NaN, in-range bracketing, +-inf beyond the float range, zero/subnormal below it', bound='all 2^64 double bit patterns')]
